@@ -130,7 +130,9 @@ def rule_R20_2(ctx):
         return r
     ins = [c for c in f.calls() if "HashMap" in (c.res_full or "") and (c.res or "").endswith("::insert")]
     gets = [c for c in f.calls() if "HashMap" in (c.res_full or "") and (c.res or "").split("::")[-1] in ("get", "contains_key", "entry")]
-    last = [c for c in f.calls() if (c.res or "").split("::")[-1] == "last"]
+    import inline
+    fv = inline.view(prog, f)       # `last()` may sit in a private locking helper
+    last = [c for c in fv.calls() if (c.res or "").split("::")[-1] in ("last", "last_mut")]
     r.inst("%s: %d insert, %d lookup, %d `last` calls" % (f.path, len(ins), len(gets), len(last)))
     if not ins or not gets:
         r.fail("%s | insert-without-lookup" % f.path,
@@ -402,6 +404,14 @@ def rule_R20_6(ctx):
     return r
 
 
+def rule_R20_7(ctx):
+    import c04
+    r = c04.rule_R04_5(ctx, "R20.7")
+    r.necessary_for = ("a lookup that finds an outer binding first reads the "
+                       "wrong variable after a legal inner redeclaration")
+    return r
+
+
 def run(ctx):
     import anchors
     BMOD[0] = anchors.binder_module(ctx.prog)
@@ -411,7 +421,7 @@ def run(ctx):
     SCOPE_WRITERS[:] = sorted(ins_) + sorted(UPDATERS)
     SCOPE_FNS[:] = sorted(ins_) + sorted(look_)
     return [rule_R20_1(ctx), rule_R20_2(ctx), rule_R20_3(ctx), rule_R20_4(ctx), rule_R20_5(ctx),
-            rule_R20_6(ctx)]
+            rule_R20_6(ctx), rule_R20_7(ctx)]
 
 
 META = {
